@@ -95,11 +95,23 @@ pub fn list(ctx: &mut Ctx) {
             }).collect::<Vec<_>>().join(";")
         };
         let wire = row_wire(&rows);
-        for _round in 0..3 {
+        for round in 0..3 {
             let solid_flag = rng.gen_bool(0.6);
             let npat = [0usize, 0, 1, 2][rng.gen_range(0..4)];
-            let pats: Vec<&str> = (0..npat).map(|_| PATTERNS[rng.gen_range(0..PATTERNS.len())]).collect();
             let names: Vec<String> = rows.iter().map(|r| r.1.name.clone()).collect();
+            // the first round of every archive uses an alternation of two names that ARE in the archive (plain names where there
+            // are any), the second a backslash-escaped literal of one: patterns that select something, and that a "literal name"
+            // short cut would misread
+            let plain: Vec<&String> = names.iter().filter(|n| !n.is_empty() && !n.contains(['*', '?', '[', ']', '{', '}', '\\', '\t', '\n', ','])).collect();
+            let forced: Option<String> = match (round, plain.len()) {
+                (0, k) if k >= 1 => Some(format!("{{{},{}}}", plain[0], plain[k - 1])),
+                // a literal with one needlessly escaped character: `a\.txt` names the same entry as `a.txt`
+                (1, k) if k >= 1 => Some(plain[k / 2].replacen('.', "\\.", 1)),
+                _ => None,
+            };
+            let forced_escaped: Option<String> = if round == 1 { names.iter().find(|n| n.contains(['*', '?', '{', '['])).map(|n| n.chars().map(|c| if "*?{}[]".contains(c) { format!("\\{c}") } else { c.to_string() }).collect()) } else { None };
+            let forced = forced_escaped.or(forced);
+            let pats: Vec<&str> = match &forced { Some(f) if round < 2 => vec![f.as_str()], _ => (0..npat).map(|_| PATTERNS[rng.gen_range(0..PATTERNS.len())]).collect() };
             let sel: Option<Vec<String>> = if pats.is_empty() { None } else {
                 let mut b = globset::GlobSet::builder();
                 for p in &pats { b.add(globset::Glob::new(p).unwrap()); }
@@ -198,7 +210,7 @@ pub fn list(ctx: &mut Ctx) {
                 if cnt != normal && !rows.iter().any(|r| r.1.name.contains('\n') || r.1.name.is_empty()) { ctx.violation("C17", "without --solid the listing does not omit exactly the entries held in solid blocks", json!({"case":attrs,"listed":cnt,"normal_entries":normal})); }
             }
             // ---- extract with the same patterns produces the same set
-            if _round == 0 {
+            if round == 0 {
                 let out = sbx.path("out");
                 let _ = std::fs::remove_dir_all(&out);
                 let mut xa: Vec<String> = vec!["--quiet".into(), "extract".into(), "--overwrite".into(), "--out-dir".into(), "out".into()];
